@@ -433,6 +433,25 @@ def run(ctx):
     for vals, script in hand:
         cases.append({'kind': 'script', 'regs': [(None, v) for v in vals], 'keys': [expr_key(v, tags) for v in vals], 'script': script,
                       'positions': ['hand'], 'unknown_mode': 'none'})
+    # the same chain (and a diamond) registered in every order of its first four links — outermost first included: what a set of
+    # registrations means does not depend on the order in which they were made
+    import itertools as _it
+    links = [v for _, v in chain[:4]]
+    top_script = [{'prim': 'parameter', 'args': [{'prim': 'unit'}]}, {'prim': 'storage', 'args': [C(chain[3][0])]},
+                  {'prim': 'code', 'args': [[{'prim': 'CDR'}, {'prim': 'NIL', 'args': [{'prim': 'operation'}]}, {'prim': 'PAIR'}]]}]
+    orders = list(_it.permutations(range(4)))
+    for order in (orders if not quick else [orders[-1], orders[9], orders[14], orders[5], orders[20]]):
+        vals = [links[i] for i in order]
+        cases.append({'kind': 'script', 'regs': [(None, v) for v in vals], 'keys': [expr_key(v, tags) for v in vals], 'script': top_script,
+                      'positions': ['hand-order'], 'unknown_mode': 'none'})
+    d0 = {'prim': 'string'}
+    d1, d2 = {'prim': 'option', 'args': [C(expr_key(d0, tags))]}, {'prim': 'list', 'args': [C(expr_key(d0, tags))]}
+    d3 = {'prim': 'pair', 'args': [C(expr_key(d1, tags)), C(expr_key(d2, tags))]}
+    dia_script = [{'prim': 'parameter', 'args': [{'prim': 'unit'}]}, {'prim': 'storage', 'args': [C(expr_key(d3, tags))]},
+                  {'prim': 'code', 'args': [[{'prim': 'CDR'}, {'prim': 'NIL', 'args': [{'prim': 'operation'}]}, {'prim': 'PAIR'}]]}]
+    for vals in ([d3, d1, d2, d0], [d3, d2, d0, d1], [d1, d3, d0, d2], [d0, d1, d2, d3]):
+        cases.append({'kind': 'script', 'regs': [(None, v) for v in vals], 'keys': [expr_key(v, tags) for v in vals], 'script': dia_script,
+                      'positions': ['hand-order'], 'unknown_mode': 'none'})
 
     # mirror-only: malformed reference nodes and a cyclic registry
     k_int = expr_key({'prim': 'int'}, tags)
